@@ -1505,10 +1505,6 @@ def _resolve_static_positions_iterative(
                 # Current bounds
                 b0, b1 = slice_dict[obj_name][axis]
 
-                # Already fully resolved
-                if b0 is not None and b1 is not None:
-                    continue
-
                 # Need object size to compute centered bounds
                 size = shape_dict[obj_name][axis]
 
@@ -1609,16 +1605,6 @@ def _apply_constraints_iteratively(
     # iterate
     for iteration in range(max_iter):
         changed = False
-
-        # check if we already resolved everything
-        if all(
-            [
-                all([shape_dict[o][i] is not None for i in range(3)])
-                and all([all([slice_dict[o][i][s] is not None for s in range(2)]) for i in range(3)])
-                for o in object_map.keys()
-            ]
-        ):
-            break
 
         # Try to resolve positions from partial_real_position if size is now known
         resolved, slice_dict, errors = _resolve_static_positions_iterative(
